@@ -860,7 +860,16 @@ func (r *runningStep) provideEnablingInput(input map[string]any) error {
 	}
 	// Check to make sure it's enabled.
 	// This is an optional field, so no input means enabled.
-	enabled := input["enabled"] == nil || input["enabled"] == true
+	// The value may arrive in its serialized form (e.g. the literal `enabled: true` of a
+	// workflow file is the string "true"), so it has to go through the schema.
+	enabled := true
+	if input["enabled"] != nil {
+		unserializedEnabled, err := schema.NewBoolSchema().Unserialize(input["enabled"])
+		if err != nil {
+			return fmt.Errorf("invalid value for 'enabled' (%w)", err)
+		}
+		enabled = unserializedEnabled.(bool)
+	}
 	r.enabledInputAvailable = true
 	r.enabledInput <- enabled
 	return nil
